@@ -51,7 +51,11 @@ func ownBaseCost(n *Node, b *nom.AccountBlock, ma types.HashHeight) (uint64, str
 		if err != nil {
 			return 0, "embedded-unknown"
 		}
-		p, _ := m.GetPlasma(&constants.AlphanetPlasmaTable)
+		// the cost of the method's REVIEWED kind (s_plasma_methods.go), not what the method itself asks for
+		if p, ok := reviewedPlasmaCost(regimeOf(ctx), embeddedMethodName(b.ToAddress, b.Data)); ok {
+			return p, "embedded"
+		}
+		p, _ := m.GetPlasma(&constants.AlphanetPlasmaTable) // an unreviewed method: reported by methodTableSweep
 		return p, "embedded"
 	}
 	return uint64(len(b.Data))*constants.ABByteDataPlasma + constants.AccountBlockBasePlasma, "send"
@@ -92,6 +96,10 @@ func plasmaHistory(c *Ctx, id int) {
 		return
 	}
 	pr := &plasmaRun{c: c, n: n, id: id, inbox: inbox, fail: fail, fakeNonce: map[string][8]byte{}, mined: map[string][]minedNonce{}}
+	methodTableSweep(c)
+	pr.ledgerInit(append(append([]types.Address{rich}, poor...), g.User9.Address, g.User10.Address))
+	n.OnMomentum = pr.onMomentum
+	pr.directedCalls(rich, 0)
 	// account states for the hand-built first blocks (s_plasma_hand.go): per poor account nothing fused / about one block's
 	// worth / many units / the per-account maximum (and one unit beyond), in rotation over the histories
 	firstBlockAccounts := append(append([]types.Address{}, poor...), g.User9.Address, g.User10.Address)
@@ -106,6 +114,10 @@ func plasmaHistory(c *Ctx, id int) {
 			units = []int64{5000, 5001}[c.R.Intn(2)]
 		}
 		if units == 0 {
+			// nothing is fused for this account: a Fuse call for it that carries another token / too little (must give it nothing)
+			if c.R.Intn(2) == 0 {
+				pr.fuseVariant(rich, p)
+			}
 			continue
 		}
 		if b, err := n.Submit(&nom.AccountBlock{BlockType: nom.BlockTypeUserSend, Address: rich, ToAddress: types.PlasmaContract, TokenStandard: types.QsrTokenStandard,
@@ -117,6 +129,8 @@ func plasmaHistory(c *Ctx, id int) {
 	if !mom() || !mom() {
 		return
 	}
+	pr.directedCalls(rich, 1)
+	pr.methodCallMatrix(rich)
 	for k, p := range firstBlockAccounts {
 		pr.handMatrix(p, id+k, 14)
 	}
@@ -271,7 +285,13 @@ func plasmaHistory(c *Ctx, id int) {
 			}
 			return
 		}
-		c.Emit("plasma-check %s %s %s %d 0 %d | %s", amt(fusedQsr), amt(committed), amt(uncommitted), usedFused, base, v)
+		// the QSR fused for the account as the replay of the plasma contract's chain gives it (s_plasma_methods.go), when known
+		lineQsr := fusedQsr
+		if rq := pr.replayedFused(acc, ma.Height); rq != nil {
+			lineQsr = rq
+			c.Hit("candidate-with-replayed-fused-qsr")
+		}
+		c.Emit("plasma-check %s %s %s %d 0 %d | %s", amt(lineQsr), amt(committed), amt(uncommitted), usedFused, base, v)
 		c.Hit("verdict-" + v)
 		_ = isRecv
 		if gerr != nil {
@@ -282,6 +302,14 @@ func plasmaHistory(c *Ctx, id int) {
 		powPlasma := vm.DifficultyToPlasma(block.Difficulty)
 		if new(big.Int).SetUint64(block.FusedPlasma).Cmp(availI) > 0 {
 			fail("C12: block %s/%d accepted with fused plasma %d, but the QSR fused for the account provides %d plasma, %s are committed on the confirmed chain and %s already on its unconfirmed blocks (available %s)", addrName(acc), block.Height, block.FusedPlasma, fusedPlasmaOfQsr, amt(committed), amt(uncommitted), availI.String())
+		}
+		if rq := pr.replayedFused(acc, ma.Height); rq != nil {
+			own := new(big.Int).Add(new(big.Int).SetUint64(fusedQsrToPlasma(rq)), committed)
+			own.Sub(own, uncommitted)
+			if new(big.Int).SetUint64(block.FusedPlasma).Cmp(own) > 0 {
+				fail("C12: block %s/%d accepted with fused plasma %d and no proof-of-work beyond difficulty %d; the QSR really fused for the account is %s (replay of the plasma contract's Fuse / CancelFuse receives up to momentum %d) = %d plasma, %s committed on the confirmed chain, %s on its unconfirmed blocks: %s available",
+					addrName(acc), block.Height, block.FusedPlasma, block.Difficulty, amt(rq), ma.Height, fusedQsrToPlasma(rq), amt(committed), amt(uncommitted), own.String())
+			}
 		}
 		if block.FusedPlasma+powPlasma < base {
 			fail("C12: block %s/%d (%s, %d data bytes) accepted with total plasma %d below its base cost %d", addrName(acc), block.Height, baseKind, len(block.Data), block.FusedPlasma+powPlasma, base)
@@ -351,6 +379,11 @@ func plasmaHistory(c *Ctx, id int) {
 		switch x := c.R.Intn(100); {
 		case x < 18: // fuse for a poor account: amounts around the unit / base cost / cap
 			ben := poor[c.R.Intn(len(poor))]
+			if c.R.Intn(3) == 0 {
+				// every token the sender holds x amounts below / at / above the minimum (only QSR >= 10 may be kept and credited)
+				pr.fuseVariant(rich, ben)
+				continue
+			}
 			units := []int64{10, 11, 15, 20, 21, 40, 100, 540, 5000, 5001}[c.R.Intn(10)]
 			am := new(big.Int).Mul(big.NewInt(units), big.NewInt(g.Zexp))
 			if c.R.Intn(3) == 0 {
